@@ -83,7 +83,15 @@ def run_unit(u: Unit, excluded: frozenset, procs: int = 16) -> Outcome:
         out.status = "VACUOUS"
         out.error = f"witnesses not reached: {missing}"
     if out.status == "CEX" and out.replayed is None:
-        if u.replay is not None:
+        if u.replay == "concrete":
+            # generic replay: the same harness re-run natively with plain Python values from the model (no proxies)
+            from symlite.core import concrete_replay
+            try:
+                d = concrete_replay(u.make(excluded), out.cex, u.declared_exceptions)
+                out.replayed = (d + f" [input {out.cex}]") if d else None
+            except Exception:
+                out.error = "replay crashed: " + traceback.format_exc(limit=6)
+        elif u.replay is not None:
             try:
                 out.replayed = u.replay(out.cex)
             except Exception as ex:
